@@ -126,6 +126,11 @@ def main():
     if "Majorises" not in r["violated"]:
         failures.append("Reweight[DerivKind = wrt_signed] must violate Majorises")
     print(f"  Reweight     signed derivative (LogSumPenalty at the pinned commit) -> violated {r['violated']}")
+    for neg, inv in (("PathCore_neg_view.cfg", "StoredStable"), ("PathCore_neg_intercept.cfg", "FitConsistent")):
+        r = tlc.run("PathCore", neg, timeout=300)
+        if inv not in r["violated"]:
+            failures.append(f"{neg} must violate {inv}")
+        print(f"  PathCore     {neg} -> violated {r['violated']}")
     for model, inv in (("ProxNewton", "CertSound"), ("AndersonCD", "Feasible"), ("GroupBCD", "HistFaithful"),
                        ("MultiTaskBCD", "CertSound")):
         base_cfg = open(tlc.SPECS + f"/mc/CDCore_{model}_pinned.cfg").read().replace("MaxIter = 2", "MaxIter = 1")
